@@ -7,6 +7,7 @@
 From Coq Require Import List Arith Bool.
 Import ListNotations.
 From SV Require Import Model.TokenSet Model.Accept Proofs.AcceptP Proofs.AcceptP2.
+From SV Require Import Base.SrcAst Generated.SourceParams Tie.AcceptTie.
 
 (* C13.1  stopped_after_revoke: never before revocation; at that point the listener is closed and
    the accept loop has returned (both trees). *)
@@ -126,6 +127,17 @@ Example c13_nonvacuous :
     exists s, run true n (init n) (stuck_trace n ++ [Loop; Loop]) = Some s /\ stopped s = true /\ listening s = false.
 Proof. exact stuck_trace_stops_when_fixed. Qed.
 
+(* C13.src  accept_loop (src/accept.rs) as TRANSLATED statement by statement ON THIS RUN (props/srcparams.py ->
+   Generated/SourceParams.v: src_accept_loop -- the token-or-permit wait, `let Some(token) = .. else { return }`, the
+   revocation check, the accept-or-permit match with the statements of its four arms), under a small-step semantics
+   whose pause points are the await points and the window before the revocation check (Tie/AcceptTie.v), makes exactly
+   the accept-task transitions of the system the theorems above are about -- for every pool size and state *)
+Theorem c13_accept_loop_is_the_source :
+  forall n s ev, eval_accept n src_accept_loop s ev = step true n s (action_of ev).
+Proof. exact accept_loop_tie. Qed.
+Theorem c13_accept_translation_complete : src_problems_accept = 0%nat.
+Proof. exact accept_translated. Qed.
+
 Print Assumptions c13_stopped_after_revoke.
 Print Assumptions c13_listener_closed_before_stopped.
 Print Assumptions c13_stop_is_bounded_loop_enabled.
@@ -141,3 +153,5 @@ Print Assumptions c13_closes_at_head_when_revoked.
 Print Assumptions c13_scenario_oracle_sound.
 Print Assumptions c13_conn_oracle_sound.
 Print Assumptions c13_stop_bounded_refuted.
+Print Assumptions c13_accept_loop_is_the_source.
+Print Assumptions c13_accept_translation_complete.
